@@ -66,8 +66,8 @@ int main(int argc, char **argv){
   // returned x is the start or an output of the projection
   if (variant == 1){
     bool found = false;
-    for (auto &e : ev) if (e.kind == 2){ bool same = true; for (int j=0;j<dims;j++) if (e.x[j] != xret[j]) same = false; if (same) found = true; }
-    bool is_start = true; for (int j=0;j<dims;j++) if (xret[j] != start[j]) is_start = false;
+    for (auto &e : ev) if (e.kind == 2){ bool same = true; for (int j=0;j<dims;j++) if (fpsym_key(e.x[j]) != fpsym_key(xret[j])) same = false; if (same) found = true; }
+    bool is_start = true; for (int j=0;j<dims;j++) if (fpsym_key(xret[j]) != fpsym_key(start[j])) is_start = false;
     // concrete comparison on the representative is backed by the ident obligations above (best is a projection output or the start)
     fpsym_check(found || is_start, "returned x is the start or a value returned by the projection");
   }
